@@ -30,6 +30,7 @@ PROPS = 'EdbVerif/Props/C20.lean'
 REQUIRED = [
     'EdbVerif.C20.topo_perm', 'EdbVerif.C20.topo_hard', 'EdbVerif.C20.topo_cycle',
     'EdbVerif.C20.topo_soft', 'EdbVerif.C20.topo_unres',
+    'EdbVerif.C20.topo_cycle_item',
     'EdbVerif.C20.oset_nodup', 'EdbVerif.C20.oset_mem', 'EdbVerif.C20.oset_order', 'EdbVerif.C20.oset_ofList',
 ]
 
@@ -145,6 +146,24 @@ def oracle(seen_case, out: str, order):
         bad.append('hard dependencies are cyclic but no cycle was reported')
     if not cyc and kind == 'cycle':
         bad.append('cycle reported but hard dependencies are acyclic (soft edge caused a failure)')
+    if cyc and kind == 'cycle':
+        # topo_cycle_item: the item named by the CycleError lies on a hard ∪ control cycle
+        try:
+            it = int(out.split(' ')[1])
+        except (IndexError, ValueError):
+            it = None
+        if it is not None:
+            succ = {}
+            for a, b in hard + ctrl:
+                succ.setdefault(a, []).append(b)
+            seen_n, todo = set(), list(succ.get(it, []))
+            while todo:
+                n = todo.pop()
+                if n not in seen_n:
+                    seen_n.add(n)
+                    todo.extend(succ.get(n, []))
+            if it not in seen_n:
+                bad.append(f'the reported CycleError names item {it}, which is not on any hard/control cycle')
     if kind == 'ok':
         if sorted(order) != sorted(keys) or len(set(order)) != len(order):
             bad.append('result is not a permutation of the items')
